@@ -81,6 +81,99 @@ pub fn catalogue() -> Vec<(String, &'static str)> {
     v
 }
 
+/// Capacity sweep of the 256-move buffer: for several "tail structures" (what the generator emits around the moment the
+/// buffer fills up: promoting pawns with and without captures, knights, rooks/bishops, the king) the 48 squares of
+/// ranks 1-6 are filled by a deterministic hill-climb (model pseudo-legal count as the guide) so that the number of
+/// pseudo-legal moves of the side to move takes every value of 236..=300: the buffer boundary falls at every offset
+/// inside every kind of per-piece batch. Both colours (mirror). These are positions the FEN reader accepts.
+pub fn capacity_sweep(lo: usize, hi: usize) -> (Vec<(String, &'static str)>, Vec<String>) {
+    let mut notes = vec![];
+    let skeletons: [(&str, &str); 13] = [
+        ("1r1r1r1k", "PQPQPQP1"),
+        ("QrQrQr1k", "QPQPQPQ1"),
+        ("r1rQr1Qk", "1PQ1PQQ1"),
+        ("QQQr1rQk", "QQQQPQQ1"),
+        ("1rQQQQQk", "PQQQQQQ1"),
+        ("QQQQQr1k", "QQQQQQPQ"),
+        ("7k", "PPPPPPP1"),
+        ("r1r1r1rk", "1P1P1P2"),
+        ("nrnrnr1k", "PPPPPP2"),
+        ("NNNNNN1k", "NNNNNN2"),
+        ("RBRBRB1k", "BRBRBR2"),
+        ("6K1", "7k"),
+        ("QQQQQQ1k", "QQQQQQ2"),
+    ];
+    let mut out = vec![];
+    for (r8, r7) in skeletons {
+        let Ok(sk) = parse_fen(&format!("{}/{}/8/8/8/8/8/8 w - - 0 1", r8, r7)) else { continue };
+        let mut base = sk.pos;
+        let has_wk = base.b.iter().any(|&c| c == WK);
+        if !has_wk {
+            base.b[sq(0, 0) as usize] = WK;
+        }
+        let free: Vec<u8> = (0..48u8).filter(|s| base.b[*s as usize] == 0).collect();
+        let count = |p: &Pos| p.pseudo_legal().len();
+        // walk the count down from the fullest board, and up from the emptiest, always by the smallest possible step
+        // (single-square change); every visited position whose count lies in lo..=hi is a member
+        let opts = [code(Q, true), code(R, true), code(B, true), code(N, true), code(P, true), code(P, false), 0u8];
+        let step_to = |cur: &Pos, largest: bool, up: bool| -> Option<(u8, u8)> {
+            let c = count(cur) as i64;
+            let mut best: Option<(i64, u8, u8)> = None;
+            for &sqr in &free {
+                for &o in &opts {
+                    if cur.b[sqr as usize] == o || (o != 0 && kind_of(o) == P && !(1..7).contains(&rank_of(sqr))) {
+                        continue;
+                    }
+                    let mut q = *cur;
+                    q.b[sqr as usize] = o;
+                    let d = count(&q) as i64 - c;
+                    let step = if up { d } else { -d };
+                    if step >= 1 && best.map_or(true, |(bs, _, _)| if largest { step > bs } else { step < bs }) {
+                        best = Some((step, sqr, o));
+                    }
+                }
+            }
+            best.map(|(_, a, b)| (a, b))
+        };
+        // phase 1: climb by the largest step to the most mobile filling (or just past `hi`);
+        // phase 2: come down by the smallest step; every visited count in lo..=hi yields a member
+        let mut cur = base;
+        // seed: queens along the lower border (the shape of the most mobile known fillings), then climb
+        for &sqr in &free {
+            if rank_of(sqr) == 0 || file_of(sqr) == 0 || file_of(sqr) == 7 {
+                cur.b[sqr as usize] = code(Q, true);
+            }
+        }
+        for _ in 0..200 {
+            if count(&cur) > hi + 8 {
+                break;
+            }
+            match step_to(&cur, true, true) {
+                Some((sqr, o)) => cur.b[sqr as usize] = o,
+                None => break,
+            }
+        }
+        let peak = count(&cur);
+        let mut seen_counts = std::collections::BTreeSet::new();
+        for _ in 0..400 {
+            let c = count(&cur);
+            if (lo..=hi).contains(&c) && seen_counts.insert(c) {
+                out.push((cur.fen6(false), "capacity sweep"));
+                out.push((cur.mirror().fen6(false), "capacity sweep"));
+            }
+            if c < lo {
+                break;
+            }
+            match step_to(&cur, false, false) {
+                Some((sqr, o)) => cur.b[sqr as usize] = o,
+                None => break,
+            }
+        }
+        notes.push(format!("capacity sweep, tail structure {}/{}: most mobile filling has {} pseudo-legal moves; {} distinct counts in {}..={} realised", r8, r7, peak, seen_counts.len(), lo, hi));
+    }
+    (out, notes)
+}
+
 /// Is this panic one of the checks that guard a skipped bounds check? (unsafe-precondition, arrayvec capacity,
 /// Position validity assert, index out of bounds, or arithmetic overflow inside Position arithmetic)
 pub fn bounds_related(text: &str) -> bool {
@@ -307,9 +400,21 @@ pub fn run(tier: &str, seed: i64) -> Outcome {
             strings.push((e, *why));
         }
     }
+    let (sweep, sweep_notes) = match guarded(|| capacity_sweep(236, 300)) {
+        Ok(v) => v,
+        Err(e) => {
+            let mut a = Acc::new();
+            a.errors.push(format!("capacity sweep construction panicked (harness): {}", e));
+            return Outcome::new(a, vec![], "");
+        }
+    };
+    let nsweep = sweep.len();
+    strings.extend(sweep);
     strings.sort();
     strings.dedup();
-    let acc1 = par_items(&strings, &|_, (f, why), acc| mobility_case(f, why, acc));
+    let mut acc1 = par_items(&strings, &|_, (f, why), acc| mobility_case(f, why, acc));
+    acc1.add("capacity-sweep positions (13 tail structures x pseudo-legal counts 236..=300 x both colours)", nsweep as u64);
+    acc1.notes.extend(sweep_notes);
     let mut reports = vec![SpaceReport { name: format!("mobility catalogue M: {} base positions and their complete 1-edit neighbourhoods{}: {} texts x both sides to move", cat.len(), if q { "" } else { " (2-edit on 16 squares for two bases)" }, strings.len()), states: acc1.states, exhaustive: true, note: format!("[{:.1}s]", t0.elapsed().as_secs_f64()) }];
     let mut acc = acc1;
     // (2) state stack
